@@ -622,9 +622,27 @@ func (n *Node) Build(c *Cand) *blockchain.Block {
 		chainID = []byte{1, 2, 3, 4}
 	}
 	hdr.Sign(chainID, Validator(c.Signer).PrivKey)
-	if c.Sig == "stale" {
+	switch c.Sig {
+	case "stale":
 		// a field is edited after signing
 		hdr.ImpliesMaxPrevotes = !hdr.ImpliesMaxPrevotes
+		hdr.Init()
+	case "stale-mhg":
+		// no other rule constrains this value: a header that claims nothing (maxHeightGenerated = height) casts no votes
+		hdr.MaxHeightGenerated = hdr.Height
+		if c.Mhg == c.H {
+			hdr.MaxHeightGenerated = hdr.Height + 1
+		}
+		hdr.Init()
+	case "stale-ts":
+		hdr.Timestamp++ // same slot
+		hdr.Init()
+	case "stale-stateroot":
+		// signed over a wrong state root, then the correct one put back: every root check passes
+		good := hdr.StateRoot
+		hdr.StateRoot = bad(good)
+		hdr.Sign(chainID, Validator(c.Signer).PrivKey)
+		hdr.StateRoot = good
 		hdr.Init()
 	}
 	return &blockchain.Block{Header: hdr, Transactions: txs, Assets: assets}
